@@ -53,6 +53,22 @@ def design_level(out, tier):
             out.notes['apalache_inductive_invariant'] = results
         finally:
             shutil.rmtree(d, ignore_errors=True)
+    # ... and proved with TLAPS for ARBITRARY Count, Q >= 1 (the uncapped variant must not be provable)
+    tlapm = shutil.which('tlapm')
+    if tlapm:
+        d = tempfile.mkdtemp(prefix='tlaps-', dir='/dev/shm')
+        try:
+            res = []
+            for mod, want in (('ThrottleProof.tla', True), ('ThrottleProofNoCap.tla', False)):
+                shutil.copy(os.path.join(SPEC, 'tlaps', mod), d)
+                p = subprocess.run([tlapm, '--cleanfp', mod], cwd=d, stdout=subprocess.PIPE, stderr=subprocess.STDOUT, text=True, timeout=900)
+                ok = 'obligations proved' in p.stdout and 'failed' not in p.stdout
+                if ok != want:
+                    raise MachineryError('TLAPS %s: expected %s\n%s' % (mod, 'a complete proof' if want else 'an unprovable obligation', p.stdout[-1200:]))
+                res.append('%s: %s' % (mod, [l for l in p.stdout.splitlines() if 'obligations' in l][-1].strip() if ok else 'an obligation fails (as it must)'))
+            out.notes['tlaps_proof'] = res
+        finally:
+            shutil.rmtree(d, ignore_errors=True)
 
 
 def _avg_dfs(cfg, prog, bound, max_runs, seed):
